@@ -85,6 +85,7 @@ type Exp struct {
 	Kind   string          `json:"kind"`
 	TTL    int             `json:"ttl"`
 	Hand   int             `json:"hand"`
+	Quar   int             `json:"quar"` // Race: 0 or the tick the NSEC3 conflict tombstone ends
 }
 
 type Step struct {
@@ -94,6 +95,9 @@ type Step struct {
 	S     int    `json:"s"`
 	X     int    `json:"x"`
 	D     int    `json:"d"`
+	P     string `json:"p"`    // Race, Create: the piece whose RRset the zone change moves
+	Tgt   string `json:"tgt"`  // Race, Create: flight | other
+	Want  string `json:"want"` // Race, Finish: synth | miss | resolved | positive (the base model's outcome)
 	Label string `json:"label"`
 	Exp   Exp    `json:"exp"`
 }
@@ -124,6 +128,8 @@ type famWorld struct {
 	pieceOwner map[string]string // model piece -> owner name of the NSEC / NSEC3 RRset
 	pools      map[string][]question
 	next       map[string]int
+	used       map[string]bool // Race: names (and name/type) drawn or created in this behaviour
+	created    []createdRR     // Race: records added to the live zone by this behaviour
 }
 
 type lifetimes struct{ s, x int }
@@ -171,6 +177,7 @@ type world struct {
 	baseInc int64
 	pieces  map[string]*piece
 	aliasN  int
+	g       *gate // Race: holds one aggressive lookup between the snapshot capture and the quarantine re-check
 }
 
 func lc(s string) string { return strings.ToLower(dns.Fqdn(s)) }
@@ -219,7 +226,8 @@ func buildWorld(in *Input, res *vh.Result, scratch string) (*world, error) {
 			return nil, err
 		}
 		z.Add("b."+z.Name+" 300 IN A 192.0.2.1", "d."+z.Name+" 300 IN A 192.0.2.2", "f."+z.Name+" 300 IN A 192.0.2.3")
-		fw := &famWorld{name: name, fam: f, z: z, srv: srv, pieceOwner: map[string]string{}, pools: map[string][]question{}, next: map[string]int{}}
+		fw := &famWorld{name: name, fam: f, z: z, srv: srv, pieceOwner: map[string]string{}, pools: map[string][]question{}, next: map[string]int{},
+			used: map[string]bool{}}
 		w.fams[name] = fw
 		if err := fw.catalogue(in); err != nil {
 			return nil, err
@@ -239,6 +247,9 @@ func buildWorld(in *Input, res *vh.Result, scratch string) (*world, error) {
 		return nil, fmt.Errorf("no cache middleware in the chain")
 	}
 	w.c, w.st = c, c.VerifX04dpStore()
+	if err := w.installGate(); err != nil {
+		return nil, err
+	}
 	time.Sleep(300 * time.Millisecond) // priming / trust-anchor refresh
 	return w, nil
 }
@@ -254,6 +265,8 @@ func (w *world) stop() {
 // exactly which RRsets is read off the zone's own denial engine (authkit), never assumed.
 func (fw *famWorld) catalogue(in *Input) error {
 	z := fw.z
+	// (Race) called again after every zone change: the spans have moved
+	fw.pieceOwner, fw.pools, fw.next = map[string]string{}, map[string][]question{}, map[string]int{}
 	existing := func(label string) string {
 		if label == "" {
 			return z.Name
@@ -269,6 +282,9 @@ func (fw *famWorld) catalogue(in *Input) error {
 	}
 	byset := map[string][]question{}
 	add := func(name string) {
+		if len(z.RRset(name, dns.TypeA)) != 0 {
+			return // (Race) created meanwhile: no longer a name that does not exist
+		}
 		k := strings.Join(denialOwners(z, name, true), ",")
 		byset[k] = append(byset[k], question{name, dns.TypeA})
 	}
@@ -302,6 +318,9 @@ func (fw *famWorld) catalogue(in *Input) error {
 			}
 			name := existing(fw.fam.Pieces[cl.Need[0]])
 			for _, t := range absentTypes {
+				if len(z.RRset(name, t)) != 0 {
+					continue // (Race) created meanwhile
+				}
 				fw.pools[id] = append(fw.pools[id], question{name, t})
 			}
 			continue
@@ -313,12 +332,20 @@ func (fw *famWorld) catalogue(in *Input) error {
 
 func (fw *famWorld) fresh(class string) (question, bool) {
 	p := fw.pools[class]
-	i := fw.next[class]
-	if i >= len(p) {
-		return question{}, false
+	for i := fw.next[class]; i < len(p); i++ {
+		k := fmt.Sprintf("%s/%d", lc(p[i].Name), p[i].Type)
+		if fw.used[lc(p[i].Name)] || fw.used[k] {
+			continue // (Race) the pools are rebuilt after a zone change: never the same question twice
+		}
+		fw.next[class] = i + 1
+		if p[i].Type == dns.TypeA {
+			fw.used[lc(p[i].Name)] = true
+		} else {
+			fw.used[k] = true
+		}
+		return p[i], true
 	}
-	fw.next[class] = i + 1
-	return p[i], true
+	return question{}, false
 }
 
 func (fw *famWorld) needOwners(in *Input, class string) []string {
@@ -616,6 +643,7 @@ type runner struct {
 	drifts int
 	eroded int // re-admissions of a composed reply so far: each rounds the lifetimes down to whole seconds
 	phase  time.Duration
+	fl     *flight // Race: the lookup held between the snapshot capture and the re-check
 }
 
 func (r *runner) replay(si int) map[string]any {
@@ -641,6 +669,11 @@ func secs(d time.Duration) string { return fmt.Sprintf("%.2f s", d.Seconds()) }
 
 // judgeSynth evaluates the lifetime predicates on the authority section of a reply that no authority produced now.
 func (r *runner) judgeSynth(si int, rp reply, q question, class string, what string) obs {
+	return r.judgeSynthOpt(si, rp, q, class, what, true)
+}
+
+// acceptance = false: only the lifetime predicates (Race: the released lookup's denial of what exists is judged by finish)
+func (r *runner) judgeSynthOpt(si int, rp reply, q question, class string, what string, acceptance bool) obs {
 	w := r.w
 	o := w.observe(r.fw, rp.msg.Ns, r.fw.needOwners(w.in, class))
 	if len(o.unknown) > 0 || o.minKey == "" {
@@ -665,6 +698,9 @@ func (r *runner) judgeSynth(si int, rp reply, q question, class string, what str
 		} else if rp.hand.After(o.minHi.Add(eps)) {
 			r.violate(si, "c04/hand-down/"+which, fmt.Sprintf("%s, yet the expiry handed to the request tree is %s later", desc, secs(rp.hand.Sub(o.minHi))))
 		}
+	}
+	if !acceptance {
+		return o
 	}
 	// acceptance side
 	truth := w.n.GroundTruth(dns.Question{Name: q.Name, Qtype: q.Type, Qclass: dns.ClassINET})
@@ -693,6 +729,9 @@ func (r *runner) compare(si int, st *Step) {
 	w := r.w
 	tol := time.Since(r.start).Seconds() + 2.5 + float64(r.eroded) + r.phase.Seconds()
 	unit := float64(w.in.Unit)
+	if !r.compareQuarantine(st) {
+		return
+	}
 	got := map[string]mcache.VerifX04dpProof{}
 	for _, p := range w.st.VerifX04dpProofs(r.fw.z.Name) {
 		k := lc(p.Owner)
@@ -775,6 +814,17 @@ func (r *runner) run() {
 	w.stamps = nil
 	w.mu.Unlock()
 	fw.next = map[string]int{}
+	fw.used = map[string]bool{}
+	if err := fw.restore(w.in); err != nil { // (Race) the records the previous behaviour created leave the zone
+		res.Skip("%s: restoring the zone: %v", r.b.ID, err)
+		return
+	}
+	defer func() {
+		r.abandonFlight()
+		if err := fw.restore(w.in); err != nil { // the next behaviour's classes are looked up in the unchanged zone's catalogue
+			res.Skip("%s: restoring the zone: %v", r.b.ID, err)
+		}
+	}()
 	w.ask(fw, question{"reset." + fw.z.Name, dns.TypeA}, "get", true)
 	if left := w.st.VerifX04dpProofs(fw.z.Name); len(left) != 0 {
 		res.Skip("%s: the zone still holds %d proof RRsets after the reset", r.b.ID, len(left))
@@ -811,6 +861,21 @@ func (r *runner) run() {
 		case "DropDer":
 			r.der = nil
 			continue
+		case "Begin": // Race: a lookup is held between the capture of the zone snapshot and the quarantine re-check
+			if !r.begin(si, st) {
+				return
+			}
+			kinds = append(kinds, "begin-"+r.fl.where)
+		case "Create": // Race: the live zone changes
+			if !r.create(si, st) {
+				return
+			}
+			kinds = append(kinds, "create-"+st.Tgt)
+		case "Finish": // Race: the held lookup is released and judged
+			if !r.finish(si, st) {
+				return
+			}
+			kinds = append(kinds, "finish-"+st.Want)
 		case "Resolve", "Synth", "MissGet":
 			q, ok := fw.fresh(st.Q)
 			if !ok {
@@ -826,9 +891,11 @@ func (r *runner) run() {
 				w.params[fw.z.Name] = lifetimes{st.S, st.X}
 				w.mu.Unlock()
 			}
+			quarBefore := r.quarantined()
 			rp := w.ask(fw, q, route, do)
 			stamps := w.collect(rp.t1)
 			if st.Op == "Resolve" {
+				r.noteAdmission(quarBefore, rp.upstream)
 				for _, s := range stamps {
 					if lc(s.q.Name) == lc(q.Name) && s.q.Qtype == q.Type {
 						r.genMap[st.Exp.Gen] = s.gen
